@@ -120,7 +120,7 @@ def parse_generic(parser, bname, elts, P):
     if bname in ('dict', 'Dict', 'Mapping') and len(elts) == 2:
         kn = key_name_of(P(elts[0]))
         vt = P(elts[1])
-        if kn is not None and vt[0] in ('bool', 'int'):
+        if kn is not None and vt[0] in ('bool', 'int', 'key', 'set'):   # absnodes: key / set values
             return ('map', kn, vt)
         return None
     if bname in ('set', 'Set', 'frozenset') and len(elts) == 1:
@@ -143,6 +143,9 @@ def fresh(P, typ, name):
     k = typ[0]
     if k == 'key':
         return SymKey(z3.Const(name, key_sort(typ[1])), typ[1])
+    if k == 'map' and typ[2][0] in ('key', 'set'):   # absnodes
+        from . import absnodes
+        return absnodes.fresh_map(P, typ, name)
     if k == 'map':
         s = key_sort(typ[1])
         pf = z3.Function(name + '#in', s, z3.BoolSort())
@@ -251,7 +254,8 @@ def _coerce_val(m: SymMap, v):
         if not is_intlike(v) or is_boollike(v):
             raise Unsupported(f'non-int value {v!r} stored in a dict[{m.kname}, int]')
         return as_z3int(v)
-    raise Unsupported(f'map value type {m.vtyp}')
+    from . import absnodes   # absnodes
+    return absnodes.coerce_value(m, v)
 
 
 def map_getitem(P, m: SymMap, k):
@@ -259,7 +263,8 @@ def map_getitem(P, m: SymMap, k):
     t = _kterm(m, k)
     if not P.branch(simp(_b(m.present(t))), 'key-present'):
         raise SymRaise(mk_exc('KeyError'))
-    return simp(m.value(t))
+    from . import absnodes   # absnodes: key / set values
+    return absnodes.wrap_value(m, m.value(t))
 
 
 def _mutate(P, c):
@@ -317,6 +322,9 @@ def call_bound(P, name, recv, args, kwargs):
         c.name = None
         _register_fresh(P, c)
         return c
+    if name == 'symmap.items' and not args:   # absnodes: only iterated by the loop rule
+        from . import absnodes
+        return absnodes.SymItems(recv)
     if name == 'symmap.keys' and not args:
         pr = recv.present
         return SymSet(lambda x: pr(x), recv.kname)
@@ -477,7 +485,7 @@ def _forall(P, mk, wrap, fn, what):
 # -------------------------------------------------------------- loop rule
 
 def is_symbolic_iterable(v):
-    return isinstance(v, SYM)
+    return isinstance(v, SYM) or type(v).__name__ == 'SymItems'   # absnodes: map.items()
 
 
 def _for_loops(fn_node):
@@ -568,6 +576,10 @@ class _Havoc:
             if not _pure_path(node):
                 raise InterpError(f'loop_modifies: bad path {path}')
             if isinstance(node, ast.Name):
+                v = fr.locals.get(node.id)
+                if isinstance(v, MUTABLE):   # absnodes: a local container mutated by method calls (.add)
+                    self.conts.append(v)
+                    continue
                 self.locals.append(node.id)
                 continue
             v = P.ev(node, fr)
@@ -651,6 +663,13 @@ def loop_rule(P, st, fr, it):
         from .interp import MergeAbort
         raise MergeAbort()
     targets = _flatten_targets(st.target, [])
+    items_map = None
+    if type(it).__name__ == 'SymItems':   # absnodes: `for k, v in m.items()`
+        items_map = it = it.map
+        if len(targets) != 2 or not all(isinstance(t, ast.Name) for t in targets):
+            raise Unsupported('loop rule: items() needs the target `k, v`')
+        vname = targets[1].id
+        targets = targets[:1]
     if len(targets) != 1 or not isinstance(targets[0], ast.Name):
         raise Unsupported('loop rule: the loop target must be a single name')
     tname = targets[0].id
@@ -674,7 +693,7 @@ def loop_rule(P, st, fr, it):
                 b[k] = fr.locals[k] = P.force(b[k])
         b.pop('done', None)
         names = [a.arg for a in inv.node.args.args]
-        miss = [n for n in names if n not in ('done', 'old') and n not in b]
+        miss = [n for n in names if n not in ('done', 'old', 'self') and n not in b]
         if miss:
             raise InterpError(f'{inv.qualname}: parameters {miss} are not locals in scope at the loop')
         return ex._call_spec(P, inv, b, {'done': done, 'old': getattr(P, 'old', None)})
@@ -707,7 +726,11 @@ def loop_rule(P, st, fr, it):
         for k, cond in clauses(done).items():
             P.assume(P.truthy(cond), fact=True)
         fr.locals[tname] = key
+        if items_map is not None:   # absnodes
+            from . import absnodes
+            fr.locals[vname] = absnodes.wrap_value(items_map, items_map.value(key.term))
         from .interp import _Break, _Continue
+        prev_guard = P.loop_guard   # absnodes: nested inside a while rule
         P.loop_guard = {'allowed': hv.allowed(), 'fresh': set(), 'keep': []}
         try:
             try:
@@ -717,7 +740,7 @@ def loop_rule(P, st, fr, it):
             except _Break:
                 raise Unsupported('loop rule: break')
         finally:
-            P.loop_guard = None
+            P.loop_guard = prev_guard
         for k, cond in clauses(done2).items():
             P.oblige(f'{short}#inv{idx}-step[{k}]', 'inv', P.truthy(cond))
         raise LoopStepDone()
@@ -729,6 +752,8 @@ def loop_rule(P, st, fr, it):
         doneS = S
     for k, cond in clauses(doneS).items():
         P.assume(P.truthy(cond), fact=True)
+    if items_map is not None:   # absnodes
+        fr.locals.pop(vname, None)
     if not was_bound:
         fr.locals.pop(tname, None)
     else:
@@ -753,6 +778,9 @@ def concretize_entry(cz, typ, name):
     if k == 'key':
         v = m.eval(z3.Const(name, key_sort(typ[1])), model_completion=True)
         return {'$key': typ[1], 'name': str(v)}
+    if k == 'map' and typ[2][0] in ('key', 'set'):   # absnodes
+        from . import absnodes
+        return concretize_value(cz, absnodes.fresh_map(None, typ, name))
     if k == 'map':
         s = key_sort(typ[1])
         pf = z3.Function(name + '#in', s, z3.BoolSort())
@@ -785,7 +813,13 @@ def concretize_value(cz, v):
         items = []
         for u in universe(m, v.kname):
             if z3.is_true(m.eval(_b(v.present(u)), model_completion=True)):
+                if v.vtyp[0] == 'set':   # absnodes
+                    items.append([str(u), concretize_value(cz, v.value(u))])
+                    continue
                 val = m.eval(v.value(u), model_completion=True)
+                if v.vtyp[0] == 'key':   # absnodes
+                    items.append([str(u), {'$key': v.vtyp[1], 'name': str(val)}])
+                    continue
                 items.append([str(u), z3.is_true(val) if v.vtyp[0] == 'bool' else val.as_long()])
         return {'$map': v.kname, 'items': items, 'universe': [str(u) for u in universe(m, v.kname)]}
     if isinstance(v, SymSet):
